@@ -348,7 +348,7 @@ func (e hev) String() string { return fmt.Sprintf("%s(i%d)", e.kind, e.who) }
 func TestC12Lookback(t *testing.T) {
 	rep := ev.NewReport("C12", "instance-lookback")
 	rep.Bound = "base rings of 4 registered-long-ago instances (+1 spare that may join), zone-awareness off and on (2 zones), 4 token placements; every history of <=3 events from {join spare, leave i, read-only on i, read-only off i} at seconds 100, 200, 300; identifiers × sizes 1..3; query times T = last event + {10, 60, 250} s, windows W ∈ {30, 120, 1000} s"
-	rep.Rule = "plain ShuffleShard is recorded on the ring in force at every moment; ShuffleShardWithLookback(id,size,W,T) on the final ring must contain every still-registered instance that was in a recorded plain shard of that size at some instant of [T-W, T]; distinct_nontrivial = (history, identifier, size, T, W) with an obligation beyond the current plain shard"
+	rep.Rule = "plain ShuffleShard is recorded on the ring in force at every moment; ShuffleShardWithLookback(id,size,W,T) on the final ring must contain every still-registered instance that was in a recorded plain shard of that size at some instant of [T-W, T]; two caching clients with the final content, asked all 9 (T,W) combinations in ascending and in descending order of the window start, must answer like the cache-less one; distinct_nontrivial = (history, identifier, size, T, W) with an obligation beyond the current plain shard"
 	deadline := ev.Deadline(8 * time.Minute)
 	kinds := []string{"join", "leave", "ro-on", "ro-off"}
 	var alphabet []hev
@@ -456,6 +456,8 @@ func TestC12Lookback(t *testing.T) {
 				rings[k] = newRing(ep.c, base, false)
 			}
 			final := rings[len(rings)-1]
+			// the same content behind a caching client, queried in ascending and in descending order of the window start
+			cachedAsc, cachedDesc := newRing(epochs[len(epochs)-1].c, base, true), newRing(epochs[len(epochs)-1].c, base, true)
 			finalSet := map[string]bool{}
 			for _, in := range cur.insts {
 				finalSet[in.id] = true
@@ -469,6 +471,34 @@ func TestC12Lookback(t *testing.T) {
 					plain := make([][]string, len(epochs))
 					for k := range epochs {
 						plain[k] = members(rings[k].ShuffleShard(id, size))
+					}
+					// "depends only on ring content": a caching client asked in any order of query times answers like the cache-less one
+					type qp struct{ dt, W int64 }
+					var qps []qp
+					for _, dt := range []int64{10, 60, 250} {
+						for _, W := range []int64{30, 120, 1000} {
+							qps = append(qps, qp{dt, W})
+						}
+					}
+					sort.Slice(qps, func(i, j int) bool { return qps[i].dt-qps[i].W < qps[j].dt-qps[j].W })
+					for pass, cr := range []*ring.Ring{cachedAsc, cachedDesc} {
+						for k := range qps {
+							q := qps[k]
+							if pass == 1 {
+								q = qps[len(qps)-1-k]
+							}
+							T := time.Unix(lastAt+q.dt, 0)
+							want := members(final.ShuffleShardWithLookback(id, size, time.Duration(q.W)*time.Second, T))
+							got := members(cr.ShuffleShardWithLookback(id, size, time.Duration(q.W)*time.Second, T))
+							rep.Eval(1)
+							if fmt.Sprint(want) != fmt.Sprint(got) {
+								var hs []string
+								for _, e := range h {
+									hs = append(hs, e.String())
+								}
+								rep.Violate(fmt.Sprintf("lookback-cache:%v:%v:%s:%d:%d:%d:%d", za, hs, id, size, q.dt, q.W, pass), fmt.Sprintf("zone-aware=%v placement %v history %v: ShuffleShardWithLookback(%q, %d, window %ds, now = last event +%ds) answers %v on a caching client that served other query times before (pass %d: %s window starts) but %v on a cache-less client with the same content", za, lay[:5], hs, id, size, q.W, q.dt, got, pass, []string{"ascending", "descending"}[pass], want), nil)
+							}
+						}
 					}
 					for _, dt := range []int64{10, 60, 250} {
 						T := lastAt + dt
